@@ -33,7 +33,7 @@ type seqCase struct {
 	Via       []bool    `json:"via,omitempty"` // socket layer, broadcast path: datagram sent from a third-party socket
 }
 
-var classNames = []string{"valid", "short", "long", "other-serial", "serial-0", "wrong-code", "wrong-id", "id-0x19", "malformed"}
+var classNames = []string{"valid", "short", "long", "other-serial", "serial-0", "wrong-code", "wrong-id", "id-0x19", "malformed", "malformed-strict"}
 
 // classify is the oracle's own view of a datagram (independent of how it was generated).
 func classify(d []byte, c spec.Call) string {
@@ -57,10 +57,39 @@ func classify(d []byte, c spec.Call) string {
 	if d[1] != l.Code {
 		return "wrong-code"
 	}
+	if strictlyMalformed(c.Op, d) {
+		return "malformed-strict"
+	}
 	if spec.Decode(c, spec.Config{}, d).MayFail {
 		return "malformed"
 	}
 	return "valid"
+}
+
+// strictlyMalformed: a field that cannot be decoded at all - a boolean byte other than 0/1 or a non-decimal nibble in a BCD
+// field. Such a datagram 'makes the call fail' (C03). A BCD-clean but calendar-impossible date or time, which C02 allows to
+// come back as the zero value, is the weaker class 'malformed' (fail or zero); so are the optional (pointer) HH:mm
+// segments of a time profile, which the library documents as nil-tolerant.
+func strictlyMalformed(op string, d []byte) bool {
+	for _, f := range spec.Responses[op].Fields {
+		p := d[f.Off : f.Off+f.Kind.Width()]
+		switch f.Kind {
+		case spec.Bool:
+			if p[0] > 1 {
+				return true
+			}
+		case spec.Date, spec.DateTime, spec.SysDate, spec.SysTime, spec.HHmm:
+			if f.Kind == spec.HHmm && op == "GetTimeProfile" {
+				continue
+			}
+			for _, x := range p {
+				if x>>4 > 9 || x&0x0f > 9 {
+					return true
+				}
+			}
+		}
+	}
+	return false
 }
 
 type verdict struct {
@@ -225,6 +254,27 @@ func runSocket(c seqCase, scale int) *rp.Fail {
 	if fail := judge(c, v, res, 0); fail != nil {
 		return fail
 	}
+	// a result must not change when the client goes on talking to the network: issue one more (directed or broadcast) call
+	// whose reply has other content, then re-read the first result
+	if before := api.Recanon(res.Value); before != nil && res.Err == nil && (udp != nil || tcp != nil) {
+		snapshot := before.String()
+		second := spec.Call{Op: "GetDevice", Serial: c.Call.Serial}
+		next := make([]byte, 64)
+		spec.Header(next, 0x17, 0x94, c.Call.Serial)
+		for i := 8; i < 32; i++ {
+			next[i] = 0x99
+		}
+		if udp != nil {
+			udp.SetHandler(farm.Script(func(r farm.Received) []farm.Action { return []farm.Action{{Data: next}} }))
+		} else {
+			tcp.SetHandler(farm.ScriptTCP(func(r farm.Received) []farm.Action { return []farm.Action{{Data: next}} }))
+		}
+		api.Invoke(u, api.Case{Call: second})
+		if now := api.Recanon(res.Value).String(); now != snapshot {
+			return rp.Failf(fmt.Sprintf("socket/%s/%s/result-changed-by-later-datagram", []string{"broadcast", "udp", "tcp"}[c.Path], c.Call.Op),
+				"the result of %s changed after a later call on the same client received another datagram:\n  at return: %s\n  now:       %s", c.Call.Op, snapshot, now)
+		}
+	}
 	if v.kind == "set-address" && elapsed > time.Duration(timeout)*time.Millisecond/2 {
 		return rp.Failf(fmt.Sprintf("socket/%d/SetAddress/waited-for-reply", c.Path), "SetAddress took %v with a timeout of %dms: it must return once the request is sent", elapsed, timeout)
 	}
@@ -311,6 +361,35 @@ func mkDatagram(t *rapid.T, class string, c spec.Call) []byte {
 		}
 	case "malformed":
 		d = gen.Payload(t, l, som, c.Serial, 1, false)
+	case "malformed-strict":
+		// a non-decimal nibble / bad boolean in one field that has such a thing; operations without one get a wrong function code instead
+		var cands []spec.Field
+		for _, f := range l.Fields {
+			switch f.Kind {
+			case spec.Bool, spec.Date, spec.DateTime, spec.SysDate, spec.SysTime:
+				cands = append(cands, f)
+			case spec.HHmm:
+				if c.Op != "GetTimeProfile" {
+					cands = append(cands, f)
+				}
+			}
+		}
+		if len(cands) == 0 {
+			d[1] ^= 0x02
+			return d
+		}
+		f := cands[rapid.IntRange(0, len(cands)-1).Draw(t, "strict.field")]
+		if f.Kind == spec.Bool {
+			d[f.Off] = byte(rapid.IntRange(2, 255).Draw(t, "strict.bool"))
+		} else {
+			nib := rapid.IntRange(0, 2*f.Kind.Width()-1).Draw(t, "strict.nibble")
+			v := byte(rapid.IntRange(10, 15).Draw(t, "strict.value"))
+			if nib%2 == 0 {
+				d[f.Off+nib/2] = d[f.Off+nib/2]&0x0f | v<<4
+			} else {
+				d[f.Off+nib/2] = d[f.Off+nib/2]&0xf0 | v
+			}
+		}
 	}
 	return d
 }
